@@ -15,6 +15,7 @@ EVO = 'pyglove/ext/evolution/base.py'
 NSGA2 = 'pyglove/ext/evolution/nsga2.py'
 REGEVO = 'pyglove/ext/evolution/regularized_evolution.py'
 HILL = 'pyglove/ext/evolution/hill_climb.py'
+STEPWISE = 'pyglove/ext/scalars/step_wise.py'
 
 
 def _calls(node):
@@ -186,11 +187,29 @@ def pipeline_facts():
   return out
 
 
+def stepwise_fact():
+  """Is `StepWise.call` stateful (a phase counter advanced by the calls) or a function of `step`?"""
+  _, tree = common.parse_source(STEPWISE)
+  cls = common.find_class(tree, 'StepWise')
+  call = common.find_func(cls, 'call')
+  text = ast.unparse(call)
+  assigns_state = any(isinstance(n, (ast.Assign, ast.AugAssign)) and 'self._' in ast.unparse(
+      n.targets[0] if isinstance(n, ast.Assign) else n.target) for n in ast.walk(call))
+  if assigns_state:
+    if 'self._current_phase += 1' not in text or 'self._last_value' not in text:
+      raise TranslatorError('StepWise.call: unknown stateful shape')
+    return True
+  if 'self._phase_ending_steps' not in text or 'step <= phase_end' not in text:
+    raise TranslatorError('StepWise.call: unknown stateless shape')
+  return False
+
+
 def run():
   forwards, d_info = dedup_facts()
   order, bump, per_call, e_info = evo_facts()
   nf = nsga2_facts()
   pipes = pipeline_facts()
+  sw = stepwise_fact()
   lean = '''/- GENERATED by translate/t_c15.py from the current source of /repo — do not edit. -/
 import PgModel.Gen
 import PgModel.Nsga2
@@ -204,12 +223,15 @@ def currentQuirks : Quirks :=
 def nsga2Facts : Nsga2.Facts :=
   { initFactor := %d, boundaryOverwrites := %s, descending := %s }
 
+/-- `scalars.StepWise.call` keeps a phase counter between calls (pinned) / is a function of the step. -/
+def stepWiseStateful : Bool := %s
+
 end Pg.C15
 ''' % (common.lean_bool(forwards), common.lean_bool(order), common.lean_bool(bump), common.lean_bool(per_call),
-       nf['initFactor'], common.lean_bool(nf['boundaryOverwrites']), common.lean_bool(nf['descending']))
+       nf['initFactor'], common.lean_bool(nf['boundaryOverwrites']), common.lean_bool(nf['descending']), common.lean_bool(sw))
   sidecar = {'sources': {DEDUP: common.sha(DEDUP), EVO: common.sha(EVO), NSGA2: common.sha(NSGA2),
-                         REGEVO: common.sha(REGEVO), HILL: common.sha(HILL)},
-             'nsga2': nf, 'pipelines': pipes,
+                         REGEVO: common.sha(REGEVO), HILL: common.sha(HILL), STEPWISE: common.sha(STEPWISE)},
+             'nsga2': nf, 'pipelines': pipes, 'stepWiseStateful': sw,
              'quirks': {'dedupForwardsReplay': forwards, 'evoProposalOrder': order, 'evoInitGenBump': bump,
                         'evoInitDonePerCall': per_call},
              'matched': {'deduping': d_info, 'evolution': e_info}}
